@@ -36,9 +36,9 @@
 EXTENDS Integers, Sequences, FiniteSets, TLC
 
 CONSTANTS
-  Mode,      \* "lin" (C12) | "tmp" (time axis, C13)
+  Mode,      \* "lin" (C12) | "giv" (elementary rotations, conventions) | "tmp" (time axis, C13)
   Dims,      \* set of dimensions to explore
-  Q1Set,     \* values allowed for the first angle (partitioning of the 4-D job)
+  QSets,     \* sequence of 6 sets: values allowed for the k-th angle (job partitioning / subsets)
   ExpSet,    \* function d -> set of exponent vectors (length d-1) to explore
   XPts,      \* function d -> sequence of integer test positions (each a sequence of length d)
   LenExp     \* exponents of the main length scale used for the radius clause
@@ -57,8 +57,13 @@ GCD(a, b) == IF b = 0 THEN a ELSE GCD(b, a % b)
 RNorm(n, d) == IF n = 0 THEN <<0, 1>>
                ELSE LET g == GCD(Abs(n), d) IN <<n \div g, d \div g>>
 RInt(k)    == <<k, 1>>
-RMul(a, b) == RNorm(a[1] * b[1], a[2] * b[2])
-RAdd(a, b) == RNorm(a[1] * b[2] + b[1] * a[2], a[2] * b[2])
+(* the first branches are shortcuts only (same values as the general formula) *)
+RMul(a, b) == IF a[1] = 0 \/ b[1] = 0 THEN <<0, 1>>
+              ELSE IF a[2] = 1 /\ b[2] = 1 THEN <<a[1] * b[1], 1>>
+              ELSE RNorm(a[1] * b[1], a[2] * b[2])
+RAdd(a, b) == IF a[1] = 0 THEN b ELSE IF b[1] = 0 THEN a
+              ELSE IF a[2] = 1 /\ b[2] = 1 THEN <<a[1] + b[1], 1>>
+              ELSE RNorm(a[1] * b[2] + b[1] * a[2], a[2] * b[2])
 RECURSIVE Pow2N(_)
 Pow2N(e)   == IF e = 0 THEN 1 ELSE 2 * Pow2N(e - 1)
 Pow2(e)    == IF e >= 0 THEN <<Pow2N(e), 1>> ELSE <<1, Pow2N(-e)>>
@@ -185,7 +190,7 @@ ConventionOK ==
 -----------------------------------------------------------------------------
 (* configurations *)
 QVecs(d) == IF NoAngles(d) = 0 THEN {<<>>}
-            ELSE {qs \in [1..NoAngles(d) -> 0..3] : qs[1] \in Q1Set}
+            ELSE {qs \in [1..NoAngles(d) -> 0..3] : \A k \in 1..NoAngles(d) : qs[k] \in QSets[k]}
 Configs == UNION {{[d |-> d, qs |-> qs, es |-> es] : qs \in QVecs(d), es \in ExpSet[d]} : d \in Dims}
 
 Flat(A)  == TLCEval([n \in 1..(Rows(A) * Cols(A)) |-> A[((n - 1) \div Cols(A)) + 1][((n - 1) % Cols(A)) + 1]])
@@ -196,79 +201,104 @@ XMat(d) == FromCols([k \in 1..(d + Len(XPts[d])) |-> IF k <= d THEN Unit(d, k) E
 
 EffQs(c)  == IF Mode = "tmp" THEN TemporalQs(c.d, c.qs) ELSE c.qs
 
+(* ---- the clauses of C12, as predicates of one configuration ------------- *)
+(* R = Rotate, DR = Derotate, I = Iso, A = Aniso of the configuration; they are
+   passed in so that TLC evaluates each of them once per configuration *)
+
+InverseHolds(d, R, DR, I, A) ==
+  /\ RMatMul(I, A) = RId(d)
+  /\ RMatMul(A, I) = RId(d)
+  /\ IMatMul(DR, R) = Id(d)
+  /\ IMatMul(R, DR) = Id(d)
+
+ProperOrthogonalHolds(d, R, DR) ==
+  /\ IMatMul(R, Transpose(R)) = Id(d)
+  /\ IMatMul(Transpose(R), R) = Id(d)
+  /\ Det(R) = 1
+  /\ DR = Transpose(R)
+
+(* a dim-n angle vector padded with zeros acts on the first n axes only *)
+EmbeddingHolds(d, qs, R) ==
+  d < 4 => LET pad == TLCEval([k \in 1..NoAngles(d + 1) |-> IF k <= NoAngles(d) THEN qs[k] ELSE 0])
+           IN Rotate(d + 1, pad) = BlockDiag1(R)
+
+(* along main axis i a vector of length L = 2^l has isotropic radius L / anis[i-1]
+   (L for the first axis): Iso maps it to (L / ratio_i) e_i; and the point at
+   distance L * anis[i-1] along axis i has isotropic radius L *)
+MainAxisScaleHolds(d, es, axes, I) ==
+  \A i \in 1..d : \A l \in LenExp :
+    LET ax == RVec(axes[i])
+        w  == RMatVec(I, RScale(Pow2(l), ax))
+        r  == RMul(Pow2(l), RInv(Ratio(es, i)))
+    IN /\ w = [k \in 1..d |-> IF k = i THEN r ELSE <<0, 1>>]
+       /\ RNorm2(w) = RSq(r)
+       /\ RMatVec(I, RScale(RMul(Pow2(l), Ratio(es, i)), ax))
+            = [k \in 1..d |-> IF k = i THEN Pow2(l) ELSE <<0, 1>>]
+
+(* "tmp": I, A are TIso, TAniso of the REQUESTED angles c.qs: the time axis is only
+   divided by the last ratio, never mixed with space, and the spatial block is the
+   (d-1)-dimensional transformation of the spatial angles and ratios *)
+TimeAxisHolds(d, qs, es, I, A) ==
+    LET sq == TLCEval([k \in 1..NoAngles(d - 1) |-> qs[k]])
+        se == TLCEval([k \in 1..(d - 2) |-> es[k]])
+        SI == Iso(d - 1, sq, se)
+        SA == Aniso(d - 1, sq, se)
+    IN /\ I[d][d] = RInv(Pow2(es[d - 1])) /\ A[d][d] = Pow2(es[d - 1])
+       /\ \A j \in 1..(d - 1) : I[d][j] = <<0, 1>> /\ I[j][d] = <<0, 1>>
+                                /\ A[d][j] = <<0, 1>> /\ A[j][d] = <<0, 1>>
+       /\ \A i, j \in 1..(d - 1) : I[i][j] = SI[i][j] /\ A[i][j] = SA[i][j]
+
 Compute(c) ==
   LET d   == c.d
       qs  == EffQs(c)
       R   == Rotate(d, qs)
+      DR  == Derotate(d, qs)
       I   == Iso(d, qs, c.es)
       A   == Aniso(d, qs, c.es)
+      ax  == MainAxes(d, qs)
       X   == ToR(XMat(d))
       IX  == RMatMul(I, X)
   IN [ rot   |-> Flat(R),                      \* d x d integers
-       derot |-> Flat(Derotate(d, qs)),
-       axes  |-> Flat(Transpose(R)),           \* row i = main axis i
+       derot |-> Flat(DR),
+       axes  |-> Flat(ax),                     \* row i = main axis i
        isoX  |-> FlatQ4(IX),                   \* d x (d+n), units of 1/4:  Iso * [I | X]
        anisoX |-> FlatQ4(RMatMul(A, X)),       \* Aniso * [I | X]
        \* squared isotropic radius of each test position, units of 1/16
-       rad2  |-> [n \in 1..Len(XPts[d]) |->
+       rad2  |-> TLCEval([n \in 1..Len(XPts[d]) |->
                     LET r == RNorm2(Col(IX, d + n)) IN
                     IF (16 * r[1]) % r[2] = 0 THEN (16 * r[1]) \div r[2]
-                    ELSE Assert(FALSE, <<"rad2", r>>)] ]
+                    ELSE Assert(FALSE, <<"rad2", r>>)]),
+       chk   |-> [ inverse   |-> InverseHolds(d, R, DR, I, A),
+                   proper    |-> ProperOrthogonalHolds(d, R, DR),
+                   embedding |-> EmbeddingHolds(d, qs, R),
+                   mainaxis  |-> MainAxisScaleHolds(d, c.es, ax, I),
+                   timeaxis  |-> IF Mode = "tmp" THEN TimeAxisHolds(d, c.qs, c.es, I, A) ELSE TRUE ] ]
 
-Init == /\ cfg \in Configs
-        /\ out = Compute(cfg)
+(* "giv": the elementary rotations themselves (one plane, one angle) *)
+GivConfigs == {c \in [d : Dims, k : 1..6, q : 0..3] : c.k <= NoAngles(c.d)}
+GivCompute(c) ==
+  LET single == TLCEval([m \in 1..NoAngles(c.d) |-> IF m = c.k THEN c.q ELSE 0])
+  IN [ giv   |-> Flat(Givens(c.d, Planes(c.d)[c.k], c.q)),
+       plane |-> Planes(c.d)[c.k],
+       noa   |-> NoAngles(c.d),
+       rot   |-> Flat(Rotate(c.d, single)),        \* the k-th model angle alone
+       chk   |-> [ convention |-> ConventionOK,
+                   \* the k-th angle alone is the elementary rotation of plane k with the sign rule
+                   single     |-> Rotate(c.d, single) = Givens(c.d, Planes(c.d)[c.k], SQ(c.k, c.q)) ] ]
+
+Init == /\ cfg \in (IF Mode = "giv" THEN GivConfigs ELSE Configs)
+        /\ out = IF Mode = "giv" THEN GivCompute(cfg) ELSE Compute(cfg)
 Next == UNCHANGED vars
 
 -----------------------------------------------------------------------------
-(* invariants = the clauses of C12 on the whole quarter-turn group *)
-D  == cfg.d
-Qs == EffQs(cfg)
-Es == cfg.es
+(* invariants: every clause holds for every configuration *)
+InverseOK        == out.chk.inverse
+ProperOrthogonal == out.chk.proper
+EmbeddingOK      == out.chk.embedding
+MainAxisScaleOK  == out.chk.mainaxis
+TimeAxisOK       == out.chk.timeaxis
 
-InverseOK ==
-  /\ RMatMul(Iso(D, Qs, Es), Aniso(D, Qs, Es)) = RId(D)
-  /\ RMatMul(Aniso(D, Qs, Es), Iso(D, Qs, Es)) = RId(D)
-  /\ IMatMul(Derotate(D, Qs), Rotate(D, Qs)) = Id(D)
-  /\ IMatMul(Rotate(D, Qs), Derotate(D, Qs)) = Id(D)
-
-ProperOrthogonal ==
-  LET R == Rotate(D, Qs) IN
-  /\ IMatMul(R, Transpose(R)) = Id(D)
-  /\ IMatMul(Transpose(R), R) = Id(D)
-  /\ Det(R) = 1
-  /\ Derotate(D, Qs) = Transpose(R)
-
-(* a dim-n angle vector padded with zeros acts on the first n axes only *)
-EmbeddingOK ==
-  D < 4 => LET pad == [k \in 1..NoAngles(D + 1) |-> IF k <= NoAngles(D) THEN Qs[k] ELSE 0]
-           IN Rotate(D + 1, pad) = BlockDiag1(Rotate(D, Qs))
-
-(* along main axis i a vector of length L = 2^l has isotropic radius L / anis[i-1]
-   (L for the first axis): Iso maps it to (L / ratio_i) e_i *)
-MainAxisScaleOK ==
-  \A i \in 1..D : \A l \in LenExp :
-    LET v == RScale(Pow2(l), RVec(MainAxes(D, Qs)[i]))
-        w == RMatVec(Iso(D, Qs, Es), v)
-        r == RMul(Pow2(l), RInv(Ratio(Es, i)))
-    IN /\ w = [k \in 1..D |-> IF k = i THEN r ELSE <<0, 1>>]
-       /\ RNorm2(w) = RSq(r)
-       \* and the point at distance len_scale * anis[i-1] along axis i has radius len_scale
-       /\ RMatVec(Iso(D, Qs, Es), RScale(RMul(Pow2(l), Ratio(Es, i)), RVec(MainAxes(D, Qs)[i])))
-            = [k \in 1..D |-> IF k = i THEN Pow2(l) ELSE <<0, 1>>]
-
-(* "tmp": the time axis is only divided by the last ratio, never mixed with space,
-   and the spatial block is the (D-1)-dimensional transformation *)
-TimeAxisOK ==
-  Mode = "tmp" =>
-    LET I == TIso(D, cfg.qs, Es)
-        A == TAniso(D, cfg.qs, Es)
-        sq == [k \in 1..NoAngles(D - 1) |-> cfg.qs[k]]
-        se == [k \in 1..(D - 2) |-> Es[k]]
-    IN /\ I[D][D] = RInv(Pow2(Es[D - 1])) /\ A[D][D] = Pow2(Es[D - 1])
-       /\ \A j \in 1..(D - 1) : I[D][j] = <<0, 1>> /\ I[j][D] = <<0, 1>>
-                                /\ A[D][j] = <<0, 1>> /\ A[j][D] = <<0, 1>>
-       /\ \A i, j \in 1..(D - 1) : I[i][j] = Iso(D - 1, sq, se)[i][j]
-                                   /\ A[i][j] = Aniso(D - 1, sq, se)[i][j]
+GivOK            == out.chk.convention /\ out.chk.single
 
 TypeOK == /\ cfg.d \in Dims
           /\ \A n \in 1..Len(out.rot) : out.rot[n] \in {-1, 0, 1}
